@@ -16,6 +16,9 @@ ORD_KINDS = {
     "strnum": ("10", ["10", "9", "100", "1", "10 "]),
     "tup": ((1, 2), [(1, 2), (1, 1), (1, 3), (1,), (1, 2, 0), (0, 9)]),
     "tupstr": (("a", "b"), [("a", "b"), ("a",), ("a", "c"), ("a", "a", "z")]),
+    # long all-constant tuples are still tuples everywhere (==, ordering, nesting), not sets
+    "tup10": (tuple(range(10)), [tuple(range(10)), tuple(range(9)), tuple(range(11)), (0,), (9, 8, 7, 6, 5, 4, 3, 2, 1, 0), tuple(float(i) for i in range(10))]),
+    "tup12mixed": ((1, "a", 2.5, "b", 3, "c", 4, "d", 5, "e", 6, "f"), [(1, "a", 2.5, "b", 3, "c", 4, "d", 5, "e", 6, "f"), (1, "a")]),
 }
 
 # container literal -> candidate members / non-members (hashable, comparable by ==)
@@ -34,6 +37,8 @@ IN_KINDS = {
     "gap9": ((1, 2, 3, 4, 6, 7, 8, 9, 10), [5, 4, 6, 5.0, 4.5, 0, 11]),
     "strs9": (tuple("abcdefghi"), ["a", "i", "j", "", "ab", "A"]),
     "negrun": (tuple(range(-4, 5)), [-4, 4, -5, 5, 0.5, -0.0, 0]),
+    "nested-run10": ((tuple(range(10)), "zz"), [tuple(range(10)), "zz", 5, tuple(range(9)), (tuple(range(10)),)]),
+    "run10-lists": (tuple(range(10)), [[1], [], (1,), 3, "3"]),
     # tuples of pairs that look like the keyword arguments of an AST node (a validator that tries dict(...) on them)
     "pairs-name": ((("name", "uid"), ("a", "b")), [("name", "uid"), ("a", "b"), "uid", "name", ("name",)]),
     "pairs-name1": ((("name", "f"),), [("name", "f"), "f", ("name",), "name"]),
@@ -92,8 +97,9 @@ def op_cases():
             for v in [x for x in vals if expressible(x)]:
                 yield (f"{kind}:lit {op} LIT", ("cmp", term_of(v), op, C), [{}])
             # tuple literal holding identifiers: f in (g, 2)  -- grammar: term -> ID inside tuples
-            yield (f"{kind}:f {op} (g,lit)", ("cmp", F, op, ("tup", (G, term_of(vals[1])))),
-                   [{"f": a, "g": b} for a in vals for b in vals])  # fmt: skip
+            lit2 = next(x for x in vals[1:] + vals[:1] if expressible(x))
+            yield (f"{kind}:f {op} (g,lit)", ("cmp", F, op, ("tup", (G, term_of(lit2)))),
+                   [{"f": a, "g": b} for a in vals for b in vals if not isinstance(b, (list, dict))])  # fmt: skip
     for cont, vals in RT_CONTAINERS:
         for op in ("in", "not in"):
             yield (f"rt:{type(cont).__name__}:f {op} g", ("cmp", F, op, G), [{"f": v, "g": cont} for v in vals])
